@@ -26,6 +26,14 @@ def swallow(cls, prog, out, ex):
 def namekey(cls, prog, out, ex):
     return cls == 'comment-lost' and re.search(r'[A-Za-z_]\w*\s*--(\[=*\[c\d+x(\nd)?\]=*\]|\s?c\d+x ?\n)\s*=', prog) is not None
 
+@rule("KF-UNARY-COMMENT", "a comment on its own line between a unary operator and its operand is glued to the operator (`- \\n--c\\na` -> `---c`): the minus becomes part of the comment")
+def unary_comment(cls, prog, out, ex):
+    return re.search(r'(-|not|#|~) \n--', prog) is not None and out is not None and re.search(r'---c\d+x', out) is not None
+
+@rule("KF-PAREN-INNER-COMMENT", "a comment on its own line directly before the expression (or type) inside redundant parentheses is dropped together with the parentheses (the comment is leading trivia of the inner expression, which the hanging / type paths do not carry over)")
+def paren_inner(cls, prog, out, ex):
+    return cls == 'comment-lost' and re.search(r'\( \n--c\d+x\n|: \n--c\d+x\n\(|\{ \n--c\d+x\n\(', prog) is not None
+
 @rule("KF-IDEM-COMMENT", "a comment inside a construct moves again on the second pass (the first pass re-attaches it to another token, which the second pass lays out differently)")
 def idem_comment(cls, prog, out, ex):
     return cls == 'not-idempotent' and '--' in prog
